@@ -3,6 +3,7 @@
 //!   replay_wire proj     cases {"in":{"m":[..],"starts":[..]},"exp":Projection,"dev":{..}}
 //!   replay_wire orders   cases {"in":{"m":[..],"ops":[..]},"exp":[result per op]}
 //!   replay_wire pair     cases {"in":{"a":[..],"b":[..]},"exp":PairProj,"dev":{..}}   (MsgPair.tla)
+//!   replay_wire query    cases {"in":{"m":[..],"rt":47|50,"blocks":[..],"hargs":[..],"sargs":[..]},"exp":QueryProj}   (WireQuery.tla)
 //!   replay_wire codec    cases {"in":{"m":[..],"starts":[..]},"exp":CodecView,"dev":{..}}
 #[path = "../wire.rs"]
 mod wire;
@@ -12,6 +13,8 @@ mod wire_new;
 mod wire_cursor;
 #[path = "../wire_pair.rs"]
 mod wire_pair;
+#[path = "../wire_query.rs"]
+mod wire_query;
 
 use serde_json::json;
 use verif_harness::common::*;
@@ -47,6 +50,15 @@ fn main() {
             print_summary(&t, json!({"battery_hangs_observed": wd.hangs}));
             std::process::exit(0);
         }
+        "query" => {
+            fn mk() -> CaseFn {
+                Box::new(|input, _dev| wire_query::query_projection_twice(input))
+            }
+            let mut wd = Watchdog::new(mk, 12);
+            let t = run_component_cases(|input, dev| wd.call(input, dev));
+            print_summary(&t, json!({"battery_hangs_observed": wd.hangs}));
+            std::process::exit(0);
+        }
         "codec" => {
             fn mk() -> CaseFn {
                 Box::new(|input, _dev| {
@@ -67,7 +79,7 @@ fn main() {
             std::process::exit(0);
         }
         _ => {
-            eprintln!("usage: replay_wire proj|orders|pair|codec");
+            eprintln!("usage: replay_wire proj|orders|pair|query|codec");
             std::process::exit(2);
         }
     }
